@@ -150,7 +150,11 @@ def showRun {K} [DecidableEq K] (cfg : Cfg String K) (showKey : K → String) (n
     s!"r{i}.strats={joinOr (r.st.strats.map (fun (k, v) => showKey k ++ "@" ++ showRat v.w)) "|"}",
     s!"r{i}.master={master}",
     s!"r{i}.reg={joinOr r.st.regS ","}+{joinOr r.st.regD ","}",
-    s!"r{i}.load={showLoad cfg r.st nfolds}" ]
+    s!"r{i}.load={showLoad cfg r.st nfolds}",
+    -- reading back through a NEW results object over the same path that takes its registry from the master file
+    s!"r{i}.reload={match r.st.master with
+      | none => "none"
+      | some (s, d) => showLoad cfg { r.st with regS := s, regD := d } nfolds}" ]
 
 def showHistory {K} [DecidableEq K] (cfg : Cfg String K) (showKey : K → String) (nfolds : Nat)
     (rs : List (Run String K Rat)) : String :=
